@@ -63,7 +63,10 @@ func dispOp(c *Ctx, op string) {
 		icpt := &specIcpt{}
 		userRuns := 0
 		var userSpec connect.Spec
-		opts := []connect.HandlerOption{connect.WithInterceptors(icpt)}
+		// the observing interceptor comes first, followed by a second option carrying two more: all
+		// of them belong to the chain of every dispatched call
+		side := &eventLog{}
+		opts := []connect.HandlerOption{connect.WithInterceptors(icpt), connect.WithInterceptors(&logIcpt{id: 1, log: side}, &logIcpt{id: 2, log: side})}
 		for _, name := range strings.Split(a["codecs"], ",") {
 			opts = append(opts, connect.WithCodec(trackCodec{rawCodec{name}, &used}))
 		}
